@@ -1,6 +1,7 @@
 #!/bin/sh
-# tools/seed_batch.sh PROP N CHECKS... : confirm seed N of property PROP (from /tmp/mut/out) and run the listed quick checks on it
+# tools/seed_batch.sh PROP N CHECKS... : confirm seed N of property PROP (from $ROOT/out, default /tmp/mut) and run the listed quick checks on it
+ROOT=${ROOT:-/tmp/mut}
 p=$1; n=$2; shift; shift
 echo "=== $p change$n"
-/verif/tools/confirm_seed.sh /tmp/mut/$p /tmp/mut/out/$p/change$n.diff /tmp/mut/out/$p/demo$n.rs
-/verif/tools/try_seed.sh /tmp/mut/out/$p/change$n.diff "$@"
+/verif/tools/confirm_seed.sh $ROOT/$p $ROOT/out/$p/change$n.diff $ROOT/out/$p/demo$n.rs
+/verif/tools/try_seed.sh $ROOT/out/$p/change$n.diff "$@"
